@@ -342,3 +342,110 @@ func TestC12Takeover(t *testing.T) {
 			rep.Floor("completed_paths", 100, rep.Nontrivial)
 		})
 }
+
+
+// TestC12Chain3: three nodes; the third connection is accepted by a node that has learned of both
+// earlier sessions but has not yet received the removal of the first one.
+func TestC12Chain3(t *testing.T) {
+	type cp struct {
+		HoldRemoval bool `json:"removal_of_first_record_withheld_from_node_3"`
+		Third       int  `json:"third_connection_on_node"`
+		OldPings    bool `json:"first_session_pings_before_third_connection"`
+	}
+	var paths []cp
+	for _, h := range []bool{true, false} {
+		for _, n := range []int{1, 2, 3} {
+			for _, op := range []bool{false, true} {
+				paths = append(paths, cp{h, n, op})
+			}
+		}
+	}
+	RunPaths(t, "C12", "C12/chain-of-three", "TestC12Chain3", len(paths), vk.Pick(4*time.Minute, 10*time.Minute),
+		func(t *testing.T, i int, rep *vk.Report) {
+			p := paths[i]
+			RunBubble(t, fmt.Sprintf("p%d", i), func(t *testing.T) {
+				w := NewWorld(t, 3)
+				defer w.Close()
+				viol := func(sig, format string, a ...any) {
+					rep.Violate(vk.Violation{Sig: sig, Msg: fmt.Sprintf("%+v: ", p) + fmt.Sprintf(format, a...), Replay: p})
+				}
+				c1 := w.NewClient("c1", 1, AckAll)
+				c1.Connect(ConnectOpts{ClientID: "X", KeepAlive: 600})
+				w.Step()
+				s1 := c1.SessionID
+				w.GossipAuto = false
+				c2 := w.NewClient("c2", 2, AckAll)
+				if rc := c2.Connect(ConnectOpts{ClientID: "X", KeepAlive: 600}); rc != 0 {
+					viol("c12-new-session-refused", "second connection: CONNACK %d", rc)
+					return
+				}
+				w.Step()
+				w.DrainGossip()
+				// deliver node 2's messages: everything to node 1; to node 3 everything except (optionally) the removal of s1
+				var held []*GossipMsg
+				for k := range w.Pending {
+					m := w.Pending[k]
+					isRemoval := false
+					for id, live := range decodeSessions(m.Payload) {
+						if id == s1 && !live {
+							isRemoval = true
+						}
+					}
+					w.Deliver(k, 1)
+					if p.HoldRemoval && isRemoval {
+						held = append(held, m)
+						continue
+					}
+					w.Deliver(k, 3)
+				}
+				w.Pending = held
+				w.Step()
+				if p.OldPings {
+					c1.Ping()
+					w.Step()
+				}
+				c3 := w.NewClient("c3", p.Third, AckAll)
+				if rc := c3.Connect(ConnectOpts{ClientID: "X", KeepAlive: 600}); rc != 0 {
+					viol("c12-new-session-refused", "the third connection with the same client identifier (node %d) got CONNACK %d", p.Third, rc)
+					return
+				}
+				s3 := c3.SessionID
+				w.Step()
+				Observe(w, rep)
+				for r := 0; r < 4; r++ {
+					w.DeliverAll(false)
+					w.Step()
+				}
+				c3.Ping()
+				w.Step()
+				if c3.Count("PINGRESP") != 1 || w.Node(p.Third).Local.Get(s3) == nil {
+					viol("c12-new-session-not-served", "the third session is not served after all gossip was delivered")
+					return
+				}
+				for _, n := range w.Nodes {
+					md, err := n.DState.SessionMetadatas().ByClientIDInMountPoint("_default", "X")
+					if err != nil || md.SessionID != s3 {
+						viol("c12-client-id-resolves-to-old-session", "node %d resolves X to %q (%v), the newest session is %s; view %s", n.ID, md.SessionID, err, s3, n.View())
+						return
+					}
+				}
+				for _, old := range []*Client{c1, c2} {
+					before := old.Count("PINGRESP")
+					old.Ping()
+					w.Step()
+					if old.Count("PINGRESP") > before {
+						viol("c12-displaced-session-served", "%s's PINGREQ was answered after all gossip was delivered", old.Name)
+						return
+					}
+				}
+				MarkNontrivial(fmt.Sprintf("%+v", p))
+				rep.Nontrivial++
+				rep.Sample(p)
+			})
+		},
+		func(i int) any { return paths[i] },
+		func(rep *vk.Report) {
+			rep.Rule = "three nodes, three connections with one client identifier (nodes 1, 2, then 1|2|3); the removal of the first record is or is not withheld from node 3 when the third connection arrives; the third CONNECT must be accepted, every node must resolve the identifier to it after all gossip, and both earlier sessions must stop being served"
+			rep.Floor("paths", 6, rep.Nontrivial)
+		})
+}
